@@ -52,6 +52,9 @@ type Config struct {
 	Genesis   *cctptypes.GenesisState // cctp genesis handed to InitGenesis (nil: default)
 	Funded    map[string]*big.Int     // bech32 address -> uusdc balance
 	Allowance *big.Int                // cctp module's minter allowance at the fiat-token-factory
+	// GenesisJSON: when set, the module is initialised the way a node does it - through AppModule.InitGenesis with
+	// these raw JSON bytes - instead of from the Genesis struct.
+	GenesisJSON []byte
 	// BankBlocked: bech32 addresses the bank refuses to pay out to (its blocked-address list).
 	BankBlocked []string
 	// FundedOther: balances in denoms other than the minting denom (look-alike spellings such as "UUSDC"):
@@ -357,6 +360,10 @@ func (c *Chain) initGenesis(ctx sdk.Context) {
 				c.initErr = r
 			}
 		}()
+		if cfg.GenesisJSON != nil {
+			cctp.NewAppModule(c.Keeper).InitGenesis(ctx, c.Cdc, cfg.GenesisJSON)
+			return
+		}
 		cctp.InitGenesis(ctx, c.Keeper, *gs)
 	}()
 }
